@@ -239,14 +239,15 @@ def find_mark_regex(program: Program) -> MarkRegex:
     hits = []
     for f in cls.methods.values():
         for n in own_nodes(f.node):
-            if isinstance(n, ast.Assign) and any(isinstance(t, ast.Attribute) and t.attr == "_markiter" for t in n.targets):
+            if isinstance(n, ast.Assign) and any(isinstance(t, ast.Attribute) and isinstance(t.value, ast.Name) and t.value.id == "self" for t in n.targets) \
+                    and isinstance(n.value, ast.Call) and ast.unparse(n.value.func).endswith("finditer"):
                 v = n.value
                 if isinstance(v, ast.Call) and ast.unparse(v.func) in ("re.finditer", "finditer"):
                     hits.append((f, v))
                 elif isinstance(v, ast.Call) and isinstance(v.func, ast.Attribute) and v.func.attr == "finditer":
                     hits.append((f, v))
     if len(hits) != 1:
-        raise AnalysisError(f"anchor vanished: expected exactly one `_markiter = ...finditer(...)` in Splitter, found {len(hits)}")
+        raise AnalysisError(f"anchor vanished: expected exactly one `self.<iterator> = ...finditer(...)` in Splitter, found {len(hits)}")
     f, call = hits[0]
     flags = 0
     if ast.unparse(call.func) in ("re.finditer", "finditer"):
